@@ -55,6 +55,8 @@ type bindStats struct {
 	Attacks    int
 	Refused    int
 	Inconcl    int
+	// NoMulticast: the multicast variant could not be run on this machine (not judged)
+	NoMulticast bool
 }
 
 const (
@@ -80,6 +82,8 @@ func runBind(c BindCase) (*bindStats, error) {
 		st, err = runBindServerUDP(c)
 	case "client-udp":
 		st, err = runBindClientUDP(c)
+	case "server-mcast":
+		st, err = runBindServerMulticast(c)
 	default:
 		st, err = runBindControl(c)
 	}
